@@ -293,9 +293,9 @@ def c11_jobs(tier, seed):
     return jobs
 
 
-C12_CFGS_Q = [SMALL, HOST, NOSSE, 'small_nosse_cache_seq', 'mid_sse_ts_omp', 'host_nosse_cache_omp']
+C12_CFGS_Q = [SMALL, HOST, NOSSE, 'small_nosse_cache_seq', 'mid_sse_ts_omp', 'host_nosse_cache_omp', 'c128_sse_cache_seq']
 C12_CFGS_T = C12_CFGS_Q + ['mid_sse_cache_seq', 'small_sse_ts_seq', 'host_sse_ts_seq', 'small_sse_cache_omp', 'host_sse_cache_omp', 'mid_nosse_cache_seq',
-                           'small_nosse_ts_omp', 'host_nosse_ts_seq', 'mid_nosse_ts_omp', 'small_nosse_ts_seq']
+                           'small_nosse_ts_omp', 'host_nosse_ts_seq', 'mid_nosse_ts_omp', 'small_nosse_ts_seq', 'c256_nosse_cache_seq', 'c4m_sse_ts_omp', 'c128_nosse_ts_omp', 'c256_sse_cache_omp']
 C12_FAMS = [('mul', 240), ('elim', 160), ('ple', 120), ('trsm', 120), ('inv', 80), ('solve', 120), ('kernel', 80)]
 
 
@@ -307,8 +307,8 @@ def c12_jobs(tier, seed):
     for cfg in (C12_CFGS_Q if q else C12_CFGS_T):
         for fam, n in C12_FAMS:
             # the block-recursive PLE is only entered in the small-cache configurations at these sizes: keep its big shapes there
-            ex = 'nosweep' if (fam == 'ple' and cfg.startswith('small')) or not q else 'nobig,nosweep'
-            jobs.append(TraceJob(cfg, fam, shards=(2 if fam == 'ple' and cfg.startswith('small') else 1) if q else 2, args=['--cases', n if q else n * 4, '--extra', ex],
+            ex = 'nosweep' if (fam == 'ple' and cfg.startswith(('small', 'c128'))) or not q else 'nobig,nosweep'
+            jobs.append(TraceJob(cfg, fam, shards=(2 if fam == 'ple' and cfg.startswith(('small', 'c128')) else 1) if q else 2, args=['--cases', n if q else n * 4, '--extra', ex],
                                  label='%s@%s' % (fam, cfg), timeout=3400, env={'OMP_NUM_THREADS': '3'}))
     return jobs
 
